@@ -30,6 +30,8 @@ MIN_REACH = {
     "batch_files_read": {"quick": 2500, "thorough": 30000},
     "contract_evals_choose_batch_settings": {"quick": 300, "thorough": 3000},
     "reloads_checked": {"quick": 300, "thorough": 3000},
+    "resows_accepted": {"quick": 15, "thorough": 60},
+    "resows_refused": {"quick": 15, "thorough": 60},
 }
 TIME_BUDGET = {"quick": 300, "thorough": 3000}
 
@@ -69,6 +71,16 @@ def cases(ctx):
         for nb in range(1, n + 3):
             yield {"w": {"mode": "cases", "combos": [], "names": ["p", "q"], "cases": cs, "constants": {}, "kind": "int"},
                    "batchsize": None, "num_batches": nb, "shuffle": False, "where": "sow"}
+    # re-sowing an existing crop (same object, or re-created from disk so that batchsize, num_batches and the remainder are
+    # all known) with the same or a different number of settings: either refused with nothing touched, or an exact partition
+    rr = ctx.rng("resow")
+    for n0 in range(2, ctx.pick(14, 30)):
+        for mode in ("num_batches", "batchsize"):
+            for rep in range(ctx.pick(2, 4)):
+                val = rr.randint(1, n0)
+                n1 = max(1, n0 + rr.choice([0, 0, -1, 1, -2, 2, -(n0 // max(1, val)), -3, 3]))
+                yield {"resow": True, "n0": n0, "n1": n1, "mode": mode, "val": val, "reload": rr.random() < 0.5,
+                       "cases": rr.random() < 0.4}
     rng = ctx.rng("sampled")
     for i in range(ctx.pick(250, 3000)):
         w = cropkit.gen_workload(rng, nmax=48)
@@ -119,8 +131,68 @@ def setup(ctx):
         cropping.Crop.choose_batch_settings = w
 
 
+def run_resow(ctx, case):
+    import xyzpy
+    tmp = ctx.mkdtemp("crop")
+    fn = probe.Probe("int", name="probe")
+    sig = {"api": "re-sow", "mode": case["mode"]}
+
+    def wl(n):
+        if case["cases"]:
+            return {"mode": "cases", "names": ["p"], "cases": [{"p": i} for i in range(n)], "combos": [], "constants": {}, "via": "sow_cases"}
+        return {"mode": "grid", "names": None, "cases": None, "combos": [["a", list(range(n))]], "constants": {}}
+    with quiet():
+        crop = xyzpy.Crop(fn=fn, name="c7", parent_dir=tmp, **{case["mode"]: case["val"]})
+        cropkit.sow(crop, wl(case["n0"]))
+    before = cropkit.tree_snapshot(cropkit.crop_dir(tmp, "c7"))
+    err = None
+    try:
+        with quiet():
+            c2 = xyzpy.Crop(fn=fn, name="c7", parent_dir=tmp) if case["reload"] else crop
+            cropkit.sow(c2, wl(case["n1"]))
+    except Exception as e:
+        err = e
+    bad = []
+    files = cropkit.batch_files(tmp, "c7")
+    if err is not None:
+        ctx.count("resows_refused")
+        after = cropkit.tree_snapshot(cropkit.crop_dir(tmp, "c7"))
+        if {k: v for k, v in after.items() if "batches" in k} != {k: v for k, v in before.items() if "batches" in k}:
+            bad.append("a refused re-sow (%r) changed the batch files" % (err,))
+    else:
+        ctx.count("resows_accepted")
+        want = Counter(probe.canon(p) for p in cropkit.requested_settings(wl(case["n1"])))
+        got = Counter()
+        sizes = {}
+        for i, p in files.items():
+            b = cropkit.read_pickle(p)
+            sizes[i] = len(b)
+            for kw in b:
+                got[probe.canon(kw)] += 1
+            ctx.count("batch_files_read")
+        if got != want:
+            bad.append("after re-sowing %d settings over a crop of %d (%s=%d) the batch files hold %d settings: stale or missing %s" % (
+                case["n1"], case["n0"], case["mode"], case["val"], sum(got.values()),
+                sorted((set(got) - set(want)) | (set(want) - set(got)))[:3]))
+        B = len(files)
+        if sorted(files) != list(range(1, B + 1)) or any(v == 0 for v in sizes.values()):
+            bad.append("batch ids %s / sizes %s after the re-sow" % (sorted(files), sizes))
+        with quiet():
+            c3 = xyzpy.Crop(name="c7", parent_dir=tmp)
+            rep = (c3.num_batches, c3.num_sown_batches)
+        if rep != (B, B):
+            bad.append("after the re-sow the crop reports num_batches=%r num_sown_batches=%r, %d batch files exist" % (rep[0], rep[1], B))
+    for msg in bad[:2]:
+        ctx.violation(case, msg, dict(sig, oracle=" ".join(msg.split(" ")[:3])))
+    ctx.rmtree(tmp)
+    ctx.observe(case, key=("resow", case["n0"], case["n1"], case["mode"], case["val"], case["reload"], case["cases"]),
+                nontrivial=True, info={"refused": repr(err)[:80] if err else None, "batches": len(files)})
+
+
 def run_case(ctx, case):
     import xyzpy
+    if case.get("resow"):
+        return run_resow(ctx, case)
     w = case["w"]
     e0 = contracts.EVALS.get("choose_batch_settings", 0)
     tmp = ctx.mkdtemp("crop")
